@@ -1,9 +1,9 @@
 #!/bin/sh
 # usage: patchcheck.sh <prop> <patch.diff> [tier]  -- runs ./check on a scratch copy of /repo with the patch applied
-set -e
+P=$(realpath "$2")
 D=$(mktemp -d /tmp/pc.XXXXXX)
 cp -r /repo/luna $D/luna
-( cd $D && patch -p1 -s < "$(realpath "$2")" )
+( cd $D && patch -p1 -s < "$P" ) || { echo "patch failed"; rm -rf $D; exit 3; }
 HWV_REPO=$D /verif/check $1 ${3:+--tier $3}; rc=$?
 echo "exit=$rc"
 rm -rf $D
